@@ -76,6 +76,11 @@ CLAIMED = {
              "Tie: translator facts on all four token sites, the relay and the set_parent/add_child pair; real sessions (chains, fan-out, moves, consecutive re-parents, hierarchies created in the marking frame) projected per child onto the slice (parent uuid and token after every frame); oracle (same parent on all peers, children lists consistent and duplicate-free, traffic stops).",
         note="Trusted: as for C02; bevy_hierarchy's push_children/update_old_parents are modelled from their 0.14 source, tied by the oracle's children-list checks only; conflicting simultaneous re-parents by different peers are outside the property.",
         technique="Lean 4 proof (component-slice invariants generalised over the relay mode; hierarchy well-formedness) + per-child trace correspondence + oracle", ref="§7 C05"),
+    "C03": dict(
+        text="Machine-checked proof on the snapshot slice (one key = entity uuid + component, or + parent link; the host's side is the component slice's peer; the joiner is a newcomer or a returning client still holding its replica and an old value; actions = host writes / applies-and-relays / detects / reacts, the transport accepting the joiner, the snapshot being read off the world at one flush and queued behind whatever was already sent, the joiner's poll / deferred handlers / detection): for every interleaving, in epochs where the host writes and in epochs where it relays another client's writes, once the joiner is through it holds the entity iff the host does, exactly one replica, the host's value, and it never announced anything — live traffic before the snapshot (ignored for unknown uuids, guarded against duplicates) and stale queue entries after it included. For downloadable assets the asset slice gains the snapshot action and the host-writer epoch theorem covers joins at any moment. Two genuine defects are recorded as known findings and kernel-checked on the models: D16 (entities despawned while a returning client was not connected stay on it) and D17 (a snapshot built while the host is still downloading a client's newer asset publication leaves the joiner with the host's outdated copy). "
+             "Tie: nine translator facts (request -> queued closure, ordered send + FinishedInitialSync last, build order, EntitySpawn before components, tracked / registered / non-excluded filter, parent pairs, client ignores unknown uuid, duplicate-spawn guard, class gates); real sessions (host + 1..3 clients building entities, components, hierarchies, four asset kinds, despawns; then one writer keeps changing things every frame while a new client connects and/or a client that left returns; per-peer switch combinations): every message a joiner really received for every (entity, component) key is replayed through the model's handlers and replica / value / count are compared after every frame of the joiner; oracle at the final drain: same uuid set (none twice), same registered component values, same parent links, same uuid assets of the classes enabled on both as the host.",
+        note="Trusted: as for C02 (scheduler, Commands, renet ordered channel modelled, projection glue); the moment the host's transport accepts the joiner is an input of the model; the snapshot's internal order across different entities is covered by translator facts and the oracle, not by the one-key slice; deletes are not part of the slice (the joiner-side correspondence skips keys whose entity is deleted; the oracle covers them). KNOWN-FINDING D16 and D17 are printed for exactly their recorded histories; any other difference is a violation.",
+        technique="Lean 4 proof (snapshot-slice invariant for newcomers and returners, both epoch kinds, all interleavings; asset epoch invariant extended by the snapshot action) + per-key joiner-side trace correspondence + final-state oracle", ref="§7 C03"),
     "C06": dict(
         text="Machine-checked proof on two slices — announcement + HTTP download (mesh, image, audio: react = debounce/serve/announce, poll = queue a download from the advertised owner and relay, fetch = GET returning what the owner's cache holds at that moment, process = apply + one debounce entry + one AssetEvent) and inline materials (react, poll, deferred apply + relay): over any sequence of writer epochs (host->clients, client->host->clients, the writer changing between epochs once drained, any number of overwrites per epoch in any rhythm), any number of clients and every schedule of reactions, deliveries, downloads and applications, every peer ends with the content of the last publication under the uuid and nothing (debounce entry, slot, download) is left over; readers never announce (no echo). The three repaired defects are refuted on the pre-repair models by kernel-checked witnesses. Identity of the bytes across encode / HTTP / decode is C11, C12, C13, C14. "
              "Tie: eight translator facts (counted debounce entries and their two sites, request() queues unconditionally, worker stores into the uuid's slot, process_* shape, the six react_* functions, both receivers and the host relay, the inline material path, serve_* overwrites); real sessions over localhost HTTP with all four kinds, bursts of overwrites, cross-peer overwrites after drains, 1..3 clients, IPv4/IPv6: per uuid the publications are replayed on the model, the model settles by fair rounds wherever the implementation drained and content / serve cache / pending debounce entries of every peer are compared; oracle: at every quiescent drain every peer holds byte-identical content (hash of the encoded asset) to the last publisher's.",
